@@ -27,7 +27,7 @@ PROPS = {
         "parts": [
             {"engine": "cfg", "test": "TestProp_C19_Grammar", "quick": 32000, "thorough": 1600000, "shards": {"quick": 4}},
             {"engine": "cfg", "test": "TestProp_C19_Mutate", "quick": 16000, "thorough": 1000000},
-            {"engine": "cfg", "test": "Fuzz_C19_Bytes", "quick": 1, "thorough": 1, "native": True, "shards": {"quick": 1, "thorough": 1}},
+            {"engine": "cfg", "test": "Fuzz_C19_Bytes", "quick": 1, "thorough": 1, "native": True, "shards": {"quick": 1, "thorough": 1}, "fuzz_seconds": {"thorough": 180}},
         ],
         "guards": ["compile-ok", "compile-invalid", "quoted", "ph-dollar-bare", "ph-env-quoted", "ph-vars", "ph-file-bare", "chan-wrapper",
                    "chan-single", "chan:bare", "named-matcher", "match-ref", "multi-value-oneline", "auth-hmac-block", "auth-hmac-shorthand",
